@@ -1,5 +1,6 @@
 import Nstd.Json.LemmasStrip
 import Nstd.Json.LemmasParse
+import Nstd.Json.LemmasRT
 /-
   Property C15 (JSON: total, safe, round trip; stripComments removes exactly the comments).
   Only the property theorems and their non-vacuity examples live here.
@@ -45,6 +46,30 @@ example : parse [34, 92, 0] = .err 1 3 := by rfl
 example : parse [91, 49, 44, 10, 32, 120, 0] = .err 2 2 := by rfl
 example : lineOf [91, 49, 44, 10, 32, 120] 5 = 2 ∧ colOf [91, 49, 44, 10, 32, 120] 5 = 2 := by decide
 example : ∃ v, parse [91, 49, 44, 34, 97, 34, 93, 0] = .ok v := ⟨_, rfl⟩
+
+/-! ## serialising then parsing is the identity
+
+  `wf v`: `v` is built from null, booleans, 32-bit ints, 64-bit ints, NUL-free strings, lists and
+  maps with NUL-free pairwise different keys (no doubles).  `toString v ++ [0]` is the exactly
+  sized C string of `Json::toString(v)`.  `veq` is `Variant::operator==`; `norm` only re-tags a
+  64-bit integer that fits 32 bits (the parser stores it as `int`), which `operator==` ignores. -/
+
+/-- for every tree of the property: parsing the text produced by `toString` succeeds and yields a
+    tree `v'` that is equal to `v` (`Variant::operator==`); `v'` is exactly `norm v` -/
+theorem roundtrip (v : Val) (h : wf v) :
+    ∃ v', parse (toString v ++ [0]) = .ok v' ∧ veq v' v = some true ∧ v' = norm v :=
+  ⟨norm v, roundtrip_norm v h, veq_norm v h, rfl⟩
+
+/-- on trees without 64-bit integers in the 32-bit range the round trip is the literal identity -/
+theorem roundtrip_exact (v : Val) (h : wf v) (hn : norm v = v) : parse (toString v ++ [0]) = .ok v := by
+  rw [roundtrip_norm v h, hn]
+
+-- non-vacuity: a tree with control characters, quotes, backslashes, a 64-bit integer, nesting
+example : wf (.map [([97, 10, 34], .list [.int (-5), .int64 5000000000, .str [1, 92, 31, 200], .null, .bool true]),
+    ([], .map [])]) := by
+  simp [wf, wfMap, wfList]
+example : parse (toString (.list [.str [97, 10, 98], .int64 7]) ++ [0]) = .ok (.list [.str [97, 10, 98], .int 7]) := by
+  rw [roundtrip_norm _ (by simp [wf, wfList])]; simp [norm, normList, wrap32]
 
 /-! ## stripComments -/
 
